@@ -42,6 +42,10 @@ const guardSlow = 200 * time.Millisecond
 // uses) lies so close to the current virtual time that the implementation's own
 // time.Now() readings could land on the other side of it.
 func (e *Env) guard(d *Dump, ages []time.Duration) error {
+	return e.guardFor(d, ages, guardBefore)
+}
+
+func (e *Env) guardFor(d *Dump, ages []time.Duration, guardBefore time.Duration) error {
 	for iter := 0; iter < 50; iter++ {
 		now := e.VNow()
 		bump := int64(0)
@@ -104,14 +108,32 @@ func RunHistory(e *Env, g *Gen, steps int) ([]*Obs, error) {
 		if a.Op.Kind == "Job" && a.Op.MinAge != 0 {
 			ages = append(ages, a.Op.MinAge)
 		}
-		if err := e.guard(pre, ages); err != nil {
+		if a.Op.Kind == "Pull" && a.Op.Wait {
+			// a waiting pull is only abandoned if nothing becomes deliverable while it waits
+			if err := e.guardFor(pre, ages, pullWaitFor+guardBefore+200*time.Millisecond); err != nil {
+				return nil, err
+			}
+			if s := pre.subByName(a.Op.Name); s != nil {
+				for _, x := range pre.Dels {
+					if x.Sub == s.ID && x.Completed == nil && x.AttemptAt <= e.VNow()+int64(time.Second) && x.Expires > e.VNow() {
+						a.Op.Wait = false // something is (about to be) deliverable: an ordinary pull
+					}
+				}
+			}
+		} else if err := e.guard(pre, ages); err != nil {
 			return nil, err
 		}
 		o, err := e.Exec(ctx, a.Op, pre)
 		if err != nil {
 			return nil, err
 		}
-		if time.Duration(o.Hi-o.Lo) > guardSlow {
+		if a.Op.Kind == "Pull" && a.Op.Wait {
+			if time.Duration(o.Hi-o.Lo) > pullWaitFor+guardSlow {
+				o.Skip = "slow-call"
+			} else if deadlineInside(pre, o.Lo, o.Hi, ages) {
+				o.Skip = "deadline-inside-call"
+			}
+		} else if time.Duration(o.Hi-o.Lo) > guardSlow {
 			o.Skip = "slow-call"
 		} else if deadlineInside(pre, o.Lo, o.Hi, ages) {
 			o.Skip = "deadline-inside-call"
@@ -280,6 +302,9 @@ func countNonVacuity(c map[string]int, o *Obs) {
 			}
 		} else if o.Resp.Kind == "pull" {
 			c["pull_empty"]++
+			if op.Wait {
+				c["pull_abandoned_while_waiting"]++
+			}
 		}
 		if len(op.Others) > 0 {
 			c["pull_deadlettered"] += len(op.Others)
